@@ -161,6 +161,22 @@ def handle : P String := do
     pure (match Engine.shadeGen mx r box par arch ⟨picks, chosen, jrand, crs, values⟩ with
       | some g => showInds g.trials ++ " | " ++ showReqs g.requests ++ " | " ++ showInds g.next ++ " | " ++ showList (showList showRat) g.archive
       | none => "none")
+  | "seagen" => do
+    -- seagen <mx> <rounding> <sea|seax|ga> <box> <pX> <pM> <parents> <contestants> <pairs> <mask> <noise> <values>
+    let mx ← bool; let r ← parseRounding
+    let pt ← tok
+    let pipe ← (match pt with
+      | "sea" => pure Engine.Pipe.sea
+      | "seax" => pure Engine.Pipe.seax
+      | "ga" => pure Engine.Pipe.ga
+      | _ => failure : P Engine.Pipe)
+    let box ← boxP; let pX ← rat; let pM ← rat; let par ← list indP
+    let cont ← list (list nat)
+    let pairs ← list (do let u ← rat; let a ← rat; pure (u, a))
+    let mask ← list (list rat); let noise ← list (list rat); let values ← list fitP
+    pure (match Engine.seaOffspring mx r pipe box pX pM par ⟨cont, pairs, mask, noise, values⟩ with
+      | some g => showInds g.offspring ++ " | " ++ showReqs g.requests
+      | none => "none")
   | "rnd" => do
     let x ← rat
     pure (showOpt showRat (F64.rnd x))
